@@ -10,22 +10,25 @@ import (
 )
 
 func init() {
-	Explanations["C13"] = "Decides structural necessary conditions of 'rebasing a v2 set yields proofs valid at the target, never panics, and leaves the caller's input alone' in the Manager's rebasing method (identified by its signature ([]V2Transaction, ChainIndex, ChainIndex)): (R1) the reorg-path computation and every proof update are reached only after the basis state was found and ValidateTransactionElements succeeded for every transaction of the set (loop-guard rule); (R2) no write and no pointer handed to the proof updater reaches memory derived from the parameter — only values that passed DeepCopy are modified; (R3) every dereference of a block supplement obtained from the store in Manager methods is dominated by a non-nil test or a fresh allocation, so a pruned or unvalidated block yields an error, not a panic; (R4) outside the tip walker the reorg-path bound is a finite integer constant; (R5) the exported set-assembly methods (those using the output→transaction parent map) revalidate the pool before reading it, so confirmed transactions are never offered as unconfirmed parents; (R6) the proof updater compares an element's leaf index with the accumulator size only after excluding the ephemeral sentinel, so inputs created earlier in the same set survive a rebase. The pool-side parts of 'assembling a broadcastable set' are decided under C05.R1 and C14.R3. NOT decided: equality of the resulting proofs with the ledger's, parent ordering."
+	Explanations["C13"] = "Decides structural necessary conditions of 'rebasing a v2 set yields proofs valid at the target, never panics, and leaves the caller's input alone' in the Manager's rebasing method (identified by its signature ([]V2Transaction, ChainIndex, ChainIndex)): (R1) the reorg-path computation and every proof update are reached only after the basis state was found and ValidateTransactionElements succeeded for every transaction of the set (loop-guard rule); (R2) no write and no pointer handed to the proof updater reaches memory derived from the parameter — only values that passed DeepCopy are modified; (R3) every dereference of a block supplement obtained from the store in Manager methods is dominated by a non-nil test or a fresh allocation, so a pruned or unvalidated block yields an error, not a panic; (R4) outside the tip walker the reorg-path bound is a finite integer constant; (R5) the exported set-assembly methods (those using the output→transaction parent map) revalidate the pool before reading it, so confirmed transactions are never offered as unconfirmed parents; (R6) the proof updater compares an element's leaf index with the accumulator size only after excluding the ephemeral sentinel, so inputs created earlier in the same set survive a rebase; (R7) the output→position maps used for parent discovery are built per transaction kind and used only on their own list, so a lookup cannot return an unrelated transaction or panic (same check as C14.R5). The pool-side parts of 'assembling a broadcastable set' are decided under C05.R1 and C14.R3. NOT decided: equality of the resulting proofs with the ledger's, parent ordering."
 
 	register(&Rule{ID: "C13.R1", Prop: "C13", Floor: 3, Doc: "validate-before-update: proofs are checked against the basis before any update", Run: c13r1})
 	register(&Rule{ID: "C13.R2", Prop: "C13", Floor: 1, Doc: "caller's memory untouched: only deep copies are modified", Run: c13r2})
 	register(&Rule{ID: "C13.R3", Prop: "C13", Floor: 5, Doc: "supplement dereferences are nil-guarded (pruned/unvalidated blocks give errors, not panics)", Run: c13r3})
 	register(&Rule{ID: "C13.R4", Prop: "C13", Floor: 1, Doc: "rebasing uses a finite reorg-path bound", Run: c13r4})
+	register(&Rule{ID: "C13.R7", Prop: "C13", Floor: 3, Doc: "parent discovery uses a position map of the right transaction kind (same check as C14.R5)", Run: positionMapsKindSafe})
 	register(&Rule{ID: "C13.R6", Prop: "C13", Floor: 1, Doc: "the proof updater skips ephemeral elements before range-checking leaf indices", Run: ephemeralSkipped})
 	register(&Rule{ID: "C13.R5", Prop: "C13", Floor: 2, Doc: "set assembly discovers parents in a revalidated pool", Run: func(c *Ctx) {
 		// the parent-discovery helper: unexported Manager method returning a map keyed by Hash256
 		var pm *types.Func
 		for _, f := range c.P.MethodsOf("chain", "Manager") {
-			if exported(f) || f.Type.Results == nil || f.Type.Results.NumFields() != 1 {
+			if exported(f) || f.Type.Results == nil {
 				continue
 			}
-			if mt, ok := f.Info().TypeOf(f.Type.Results.List[0].Type).(*types.Map); ok && ir.IsNamed(mt.Key(), ir.PkgPath("types"), "Hash256") {
-				pm = f.Obj
+			for _, fld := range f.Type.Results.List {
+				if mt, ok := f.Info().TypeOf(fld.Type).(*types.Map); ok && ir.IsNamed(mt.Key(), ir.PkgPath("types"), "Hash256") {
+					pm = f.Obj
+				}
 			}
 		}
 		if pm == nil {
